@@ -137,8 +137,15 @@ class Evaluator:
             return []
         addrs = []
         for term in cell.formula.terms:
-            if term in self.model.ranges:
-                for row in self.model.ranges[term].cells:
+            # A defined name is listed as `<sheet of the formula>!<name>`.
+            defn = self.model.defined_names.get(term.rpartition('!')[2])
+            if isinstance(defn, xltypes.XLCell):
+                addrs.append(defn.address)
+                continue
+            rng = defn if isinstance(defn, xltypes.XLRange) \
+                else self.model.ranges.get(term)
+            if rng is not None:
+                for row in rng.cells:
                     addrs.extend(row)
             else:
                 addrs.append(term)
